@@ -482,6 +482,10 @@ def run(ctx, R, tier):
             "the client accepts other message types as the answer of a call: `%s`" % (unparse(arg) if arg is not None else "None"))
 
     # streamed results: a stream's table key is made fresh per stream; two streams of one conversation must not answer each other's item requests (shared with C10-R3)
+    # a failed check must surface as the communication error it constructs: a name in the client or the wire code that nothing binds turns "reply out of sync" into NameError,
+    # which the release-on-CommunicationError handler does not cover (the out-of-sync connection stays in use)
+    from .common import names_bound
+    names_bound(ctx, R, "C03-R1", {"Pyro5.client", "Pyro5.protocol"}, "a sequence / type / size check that fails does so with NameError instead of its ProtocolError, past the handler that releases the connection")
     from ..report import Rules
     from ..report import run_shared as _run_shared
     from . import c10
